@@ -21,6 +21,11 @@ def _e1(plan_quick, plan_thorough, extra=None):
     def f(tier):
         plan = plan_thorough if tier == "thorough" else plan_quick
         engines = [{"engine": "e1", "shards": 16, "args": {"bias": b, "cases": n}} for b, n in plan]
+        # the same histories, model and monitors against the real teosd binary (E3)
+        if tier == "thorough":
+            engines += [{"engine": "e3", "shards": 4, "timeout_s": 3000, "args": {"bias": b, "cases": max(40, n // 8), "parallel": 4}} for b, n in plan]
+        else:
+            engines += [{"engine": "e3", "shards": 4, "args": {"bias": plan[0][0], "cases": 12, "parallel": 4}}]
         if extra:
             engines += extra(tier)
         return engines
@@ -35,37 +40,46 @@ E1_RULE = ("case = one seeded history of 30-150 steps over 2-4 users and 4-10 ch
            "advances of up to 110 blocks, scripted node verdicts (-25 -26 -27 -22 other, garbage), txindex on/off, restarts. After EVERY step the "
            "TowerModel monitors compare replies, sqlite rows, private-API answers and the node RPC log with the model. ")
 
+E3_RULE = ("The same generator, model and monitors also run against the real teosd binary (engine e3: teosd built from the working tree with the verif feature, "
+           "bootstrapped by its own main.rs against a fake bitcoind speaking JSON-RPC over TCP and backed by the same SimChain/SimNode; user requests over the HTTP API "
+           "(over the internal gRPC API when the HTTP front-end cannot carry them: bodies beyond its length limits, empty signatures), operator requests over the mTLS "
+           "gRPC API, restarts alternately SIGKILL and the stop RPC; polls are held by the fake bitcoind until the driver grants them, so block delivery is as "
+           "deterministic as in-process). A panic message or an unexpected exit of teosd is a violation; a port collision or start-up failure is inconclusive. ")
+
 E1_ASSUME = [
     "the outside world is simulated at the tower's two real boundaries (BlockSource, bitcoind JSON-RPC); histories a real chain cannot produce are not generated",
     "locator collisions (two transaction ids sharing 16 bytes) cannot be generated and are not covered",
     "sequential histories only (one request or block event at a time); interleavings are the business of C10/C11",
-    "the in-process bootstrap is a copy of main.rs's sequence (the real binary is exercised by the e2e engine where available)",
+    "the in-process bootstrap is a copy of main.rs's sequence; the e3 engine runs the same histories against the real binary (fewer of them)",
     "an 'already in chain' (-27) verdict and a garbage node reply are not classified by the statements: several outcomes are tolerated there",
 ]
 
 CHECKS = {
     "C01": {
+        "bins": True,
         "engines": _e1([("mixed", 150), ("chain", 50)], [("mixed", 3000), ("chain", 1000), ("expiry", 500)]),
         "level": "exploration",
-        "rule": E1_RULE + "C01 oracle: every watched appointment whose dispute is delivered in a block (or sits in the six-block window at acceptance) creates an "
+        "rule": E1_RULE + E3_RULE + "C01 oracle: every watched appointment whose dispute is delivered in a block (or sits in the six-block window at acceptance) creates an "
                 "obligation: penalty already known to the node / submitted inside the delivery window; verdict accept => reported dispute_responded with "
                 "exactly that dispute and penalty from then on; undecryptable or rejected => only that appointment disappears. non-trivial = history with "
                 ">= 1 obligation; distinct = distinct operation lists.",
         "assumptions": E1_ASSUME,
     },
     "C02": {
+        "bins": True,
         "engines": _e1([("mixed", 150), ("chain", 50)], [("mixed", 3000), ("chain", 1000), ("expiry", 500)]),
         "level": "exploration",
-        "rule": E1_RULE + "C02 oracle: every sendrawtransaction in the RPC log must be justified at its position by the model (penalty of an appointment being "
+        "rule": E1_RULE + E3_RULE + "C02 oracle: every sendrawtransaction in the RPC log must be justified at its position by the model (penalty of an appointment being "
                 "triggered in that window, penalty of a responded appointment, dispute only for a responded appointment whose confirming block was just "
                 "disconnected; never for dropped / purged / untriggered ones); dispute_responded only when backed by a send or by the node having it. "
                 "non-trivial = history with >= 1 broadcast.",
         "assumptions": E1_ASSUME,
     },
     "C04": {
+        "bins": True,
         "engines": _e1([("chain", 130), ("mixed", 50)], [("chain", 2500), ("mixed", 1000)]),
         "level": "exploration",
-        "rule": E1_RULE + "C04 oracle per responded appointment: (a) dispute+penalty re-submitted by the end of the first block connected after its confirming "
+        "rule": E1_RULE + E3_RULE + "C04 oracle per responded appointment: (a) dispute+penalty re-submitted by the end of the first block connected after its confirming "
                 "block was disconnected; (b) while unconfirmed the tip never gets 12 blocks above the last submission; (c) after every completed poll a "
                 "tracker row with confirmed=1 at height h has its penalty in the delivered block at h; (d) it disappears with a refund exactly when the "
                 "penalty is 100 deep; (e) rejected re-submission => dropped without refund. non-trivial = history exercising at least one of (a)-(d).",
@@ -122,27 +136,30 @@ CHECKS = {
         "assumptions": ["6 replies per client process, each against a fresh tower that is abandoned afterwards", "the retry path is exercised by C05/C13 with the same reply kinds"],
     },
     "C06": {
+        "bins": True,
         "engines": _e1([("auth", 150), ("mixed", 50)], [("auth", 3000), ("mixed", 1500)]),
         "level": "exploration",
-        "rule": E1_RULE + "C06 oracle: a request succeeds iff (by construction) its signature is a correct one by a registered, unexpired user over exactly the "
+        "rule": E1_RULE + E3_RULE + "C06 oracle: a request succeeds iff (by construction) its signature is a correct one by a registered, unexpired user over exactly the "
                 "request's message (mutations: other message, truncated, one character changed, non-zbase32, empty, unregistered key); every failure is an "
                 "authentication error and leaves the database byte-identical; after every request all records of every other user are unchanged; "
                 "get_subscription_info lists only the signer's locators. non-trivial = history with >= 1 rejected signature.",
         "assumptions": E1_ASSUME,
     },
     "C08": {
+        "bins": True,
         "engines": _e1([("mixed", 150), ("expiry", 40)], [("mixed", 3000), ("expiry", 1000), ("chain", 500)]),
         "level": "exploration",
-        "rule": E1_RULE + "C08 oracle: every successful register/add reply is verified with the client-side verifier (RegistrationReceipt::verify, "
+        "rule": E1_RULE + E3_RULE + "C08 oracle: every successful register/add reply is verified with the client-side verifier (RegistrationReceipt::verify, "
                 "AppointmentReceipt::verify) under the tower id, rebuilt from exactly the returned fields; start_block == model height (also after "
                 "disconnections); slots/expiry equal the users row; stored row and get_appointment read-back equal the last accepted version byte for byte. "
                 "non-trivial = history with >= 1 receipt verified.",
         "assumptions": E1_ASSUME,
     },
     "C09": {
+        "bins": True,
         "engines": _e1([("expiry", 150), ("mixed", 50)], [("expiry", 3000), ("mixed", 1500)]),
         "level": "exploration",
-        "rule": E1_RULE + "C09 oracle: configurations (slots, duration, grace) from small grids incl. 1/0; add/get succeed iff height < expiry and the error "
+        "rule": E1_RULE + E3_RULE + "C09 oracle: configurations (slots, duration, grace) from small grids incl. 1/0; add/get succeed iff height < expiry and the error "
                 "states the expiry; registration = (height, height+duration), renewal = +duration / +slots; the user row with all appointments and trackers "
                 "vanishes at the first delivered block with height >= expiry + grace, not earlier, others untouched, also across reorgs and multi-block "
                 "polls. non-trivial = history with >= 1 expiry error, renewal or purge.",
@@ -150,16 +167,19 @@ CHECKS = {
     },
 
     "C07": {
+        "bins": True,
         "engines": _e1([("mixed", 150), ("expiry", 40)], [("mixed", 3000), ("expiry", 1000), ("chain", 500)], lambda tier: [{"engine": "c07f", "shards": 1}]),
         "level": "exploration",
         "exhaustive": "the slot formula is evaluated for EVERY blob length 0..4 MiB (gRPC transport limit) against integer arithmetic; the ledger histories are sampled",
-        "rule": E1_RULE + "C07 oracle: ledger granted = available + occupied (max(1, ceil(len/2048)) per held row) + forfeited after every step, with "
+        "rule": E1_RULE + E3_RULE + "C07 oracle: ledger granted = available + occupied (max(1, ceil(len/2048)) per held row) + forfeited after every step, with "
                 "'available' read three ways that must agree: the reply, get_user (memory), the users row (disk); acceptance only if the balance stays >= 0; "
                 "replacement moves the balance by the difference; refunds only at 100-confirmation completion. non-trivial = history with receipts and ledger checks.",
         "assumptions": E1_ASSUME,
     },
     "C03": {
-        "engines": lambda tier: [{"engine": "e1c", "shards": 16, "args": {"cases": 40 if tier == "thorough" else 3, "max_points": 3000 if tier == "thorough" else 500}}],
+        "bins": True,
+        "engines": lambda tier: [{"engine": "e1c", "shards": 16, "args": {"cases": 40 if tier == "thorough" else 3, "max_points": 3000 if tier == "thorough" else 500}},
+                                 {"engine": "e3c", "shards": 4, "timeout_s": 6000, "args": {"cases": 30 if tier == "thorough" else 3, "max_faults": 400 if tier == "thorough" else 60, "parallel": 4}}],
         "level": "fault_enumeration",
         "rule": "fault space = for each history H (an E1 history of 12-40 steps that passed every sequential monitor; 1000 slots per registration so a lost request "
                 "cannot cascade; plus as many scripted 'lifecycle' histories that drive trackers to their 100th confirmation and subscriptions past their expiry + grace "
@@ -170,9 +190,14 @@ CHECKS = {
                 "re-issued (a registration only if it did not take effect), H continues. Oracle: restart succeeds with the same tower id; from the crash onwards the "
                 "database after EVERY operation equals the uninterrupted run's (users, appointments byte for byte, trackers with their transactions and confirmation, "
                 "last known block), except that the in-flight user's balance may be short by at most that request's cost and never higher; no dangling rows. "
-                "non-trivial = fault actually reached; distinct = distinct (history, fault).",
+                "non-trivial = fault actually reached; distinct = distinct (history, fault). Second engine (e3c), same oracle against the real teosd binary: the "
+                "uninterrupted reference run (model-checked, real main.rs bootstrap, fake bitcoind over TCP) records every hook point each teosd process hits and every "
+                "bitcoind request it makes; faults = abort() of the process at its k-th hook point (TEOS_VERIF_ABORT_AT: before/after each durable write and explicit "
+                "commit - a real process death, sqlite journal left as is) and SIGKILL when its j-th bitcoind request arrives (first / last of the bootstrap's cache "
+                "downloads and every request after them); teosd is then started again on the same data directory. Histories: lifecycle (completion / expiry run-out), "
+                "scripted bootstrap situations (backlog mined while down, restart before the first block, late appointment), short generated ones.",
         "assumptions": E1_ASSUME[:2] + [
-            "process death is simulated by unwinding and dropping every tower object in-process (no power-loss / torn-page semantics); the in-process bootstrap mirrors main.rs (the real binary is the e2e engine's business)",
+            "e1c: process death is simulated by unwinding and dropping every tower object in-process; e3c: real process death (abort / SIGKILL) of the real binary, the page cache survives (no power-loss / torn-page semantics)",
             "histories poll right after mining, so that the only undelivered blocks at a crash are those of the poll in flight",
             "one fault per re-execution",
         ],
@@ -194,11 +219,13 @@ CHECKS = {
         ],
     },
     "C11": {
+        "bins": True,
         "engines": lambda tier: [{"engine": "e2", "shards": 16, "args": {"schedules": 3000 if tier == "thorough" else 150, "free": 150 if tier == "thorough" else 10}},
                                  {"engine": "e1", "shards": 16, "args": {"bias": "mixed", "cases": 1500 if tier == "thorough" else 80}},
-                                 {"engine": "e1", "shards": 16, "args": {"bias": "chain", "cases": 800 if tier == "thorough" else 40}}],
+                                 {"engine": "e1", "shards": 16, "args": {"bias": "chain", "cases": 800 if tier == "thorough" else 40}},
+                                 {"engine": "e3", "shards": 4, "timeout_s": 3000, "args": {"bias": "mixed", "cases": 300 if tier == "thorough" else 12, "parallel": 4}}],
         "level": "exploration",
-        "rule": "three monitors over two engines. (1) E2 scheduler: in every scheduled / free-running execution of the C10 scenarios the observer mediates every "
+        "rule": "three monitors over two engines (plus e3: E1 histories against the real teosd binary, where a panic message on its output or an unexpected exit is the violation). (1) E2 scheduler: in every scheduled / free-running execution of the C10 scenarios the observer mediates every "
                 "tower lock; a state in which no tower thread is enabled (circular wait over lock owners, or everybody waiting) is detected deterministically and "
                 "reported with holders/waiters. (2) lock-order graph over everything executed; inversions are listed as predictions, only manifested circular "
                 "waits are verdicts. (3) panic hook: any panic raised in tower code in any E2 execution or E1 history (incl. resubmission of appointments in "
